@@ -74,6 +74,13 @@ type S struct {
 	walHoldsDropped bool      // rows written before a DROP SERIES to series it dropped are not flushed yet
 	dropUnsettled   bool      // a DROP SERIES matched since the last (re)start
 	lastDropAt      time.Time // wall clock of that drop (only used to sleep the rest of SettleMs)
+	delReady        map[string]bool // ns -> its deleted-series index exists (first effective DROP SERIES, or a restart)
+	groupSeen       map[string]bool // ns|shard group -> the group's series index exists
+	detached        map[string]bool // ns|shard group -> index created while delReady: DROP SERIES does not reach it
+	everMst         map[string]bool // ns|measurement ever written since the namespace was created
+	tainted         map[string]bool // ns|measurement: a DROP SERIES hit it while a greater measurement name was in the index
+	noExcl          bool            // replays of known findings: evaluate every read
+	grace           time.Duration   // how long a wrong read may take to become right (30 s)
 
 	lastEvent   string // kind of the last state-changing op: attribution of a late but finally right read
 	restarts    int
@@ -110,7 +117,8 @@ func noteLate(class string, ms int64, example string) {
 }
 
 func newS(h *hist.H, c *ev.Case, fail func(string, ...any)) *S {
-	s := &S{h: h, c: c, w: newWorld(), fail: fail, visible: map[string]bool{}, unflushed: map[string]bool{}, inFiles: map[string]bool{}, shapesAfterNT: map[string]bool{}}
+	s := &S{h: h, c: c, w: newWorld(), fail: fail, visible: map[string]bool{}, unflushed: map[string]bool{}, inFiles: map[string]bool{}, shapesAfterNT: map[string]bool{},
+		grace: 30 * time.Second, delReady: map[string]bool{}, groupSeen: map[string]bool{}, detached: map[string]bool{}, everMst: map[string]bool{}, tainted: map[string]bool{}}
 	s.w.add("db0", "db0", "")
 	return s
 }
@@ -153,6 +161,12 @@ func (s *S) write(nsName string, ps []hist.PointJ) {
 	for _, p := range mps {
 		sk := nsName + "|" + model.SeriesKeyOf(p.Mst, p.Tags)
 		s.unflushed[sk] = true
+		s.everMst[nsName+"|"+p.Mst] = true
+		gk := fmt.Sprintf("%s|%d", nsName, groupOf(p.Time))
+		if !s.groupSeen[gk] {
+			s.groupSeen[gk] = true
+			s.detached[gk] = s.delReady[nsName]
+		}
 		vk := fmt.Sprintf("%s|%d", sk, groupOf(p.Time))
 		if !s.visible[vk] {
 			s.visible[vk] = true
@@ -219,6 +233,16 @@ func (s *S) comeBack(when string) {
 	s.h.Restarts++
 	s.h.Gen++
 	s.dropUnsettled = false
+	if !s.noExcl {
+		// known finding: after a restart the first write to a series key that has an older, dropped incarnation
+		// gets yet another series id and stays invisible until the index publishes it (a DROP SERIES in that
+		// second misses the rows): every series is awaited again after a restart
+		s.visible = map[string]bool{}
+	}
+	for gk := range s.groupSeen {
+		s.delReady[gk[:strings.Index(gk, "|")]] = true
+		s.detached[gk] = false
+	}
 	s.lastEvent = "restart"
 	s.fullCheck("after "+when, false)
 }
@@ -227,12 +251,7 @@ func (s *S) restart() {
 	if !s.h.Srv.Term(120 * time.Second) {
 		s.fail("server did not exit within 120 s of SIGTERM")
 	}
-	// a clean shutdown flushes the memtables
-	for k := range s.unflushed {
-		s.inFiles[k] = true
-	}
-	s.unflushed = map[string]bool{}
-	s.walHoldsDropped = false
+	// a clean shutdown does not flush the memtables: the log is replayed at the next start, as after a crash
 	s.restarts++
 	s.comeBack("a clean restart")
 }
@@ -290,11 +309,18 @@ func (s *S) drop(d *Drop) {
 		if len(dropped) > 0 {
 			s.dropUnsettled = true
 			s.lastDropAt = time.Now()
+			s.delReady[d.NS] = true
+			for k := range s.everMst {
+				if strings.HasPrefix(k, d.NS+"|") && k > d.NS+"|"+d.Mst {
+					s.tainted[d.NS+"|"+d.Mst] = true
+				}
+			}
 		}
 		forget(d.NS, dropped)
 	case "measurement":
 		// database-wide (every retention policy), as in InfluxDB
 		for _, x := range s.w.ofDB(n.DB) {
+			delete(s.tainted, x.Name+"|"+d.Mst)
 			forget(x.Name, x.dropMeasurement(d.Mst))
 			s.droppedMsts = append(s.droppedMsts, x.Name+"|"+d.Mst)
 		}
@@ -303,6 +329,7 @@ func (s *S) drop(d *Drop) {
 			forget(n.Name, n.dropMeasurement(m))
 			s.droppedMsts = append(s.droppedMsts, n.Name+"|"+m)
 		}
+		s.forgetIndexes(n.Name)
 		n.reset()
 	case "database":
 		for _, x := range s.w.ofDB(n.DB) {
@@ -310,9 +337,62 @@ func (s *S) drop(d *Drop) {
 				forget(x.Name, x.dropMeasurement(m))
 				s.droppedMsts = append(s.droppedMsts, x.Name+"|"+m)
 			}
+			s.forgetIndexes(x.Name)
 			x.reset()
 		}
 	}
+}
+
+func (s *S) forgetIndexes(ns string) {
+	delete(s.delReady, ns)
+	for _, m := range []map[string]bool{s.everMst, s.tainted} {
+		for k := range m {
+			if strings.HasPrefix(k, ns+"|") {
+				delete(m, k)
+			}
+		}
+	}
+	for gk := range s.groupSeen {
+		if strings.HasPrefix(gk, ns+"|") {
+			delete(s.groupSeen, gk)
+			delete(s.detached, gk)
+		}
+	}
+}
+
+// positiveOnly: the predicate consists of = / =~ leaves with non-empty values only.
+func positiveOnly(p *Pred) bool {
+	switch p.Op {
+	case "and", "or":
+		return positiveOnly(p.L) && positiveOnly(p.R)
+	case "eq", "re":
+		return p.Val != ""
+	}
+	return false
+}
+
+// unreliable: known finding - after a DROP SERIES on a measurement that is not the last one of its index, a
+// selection that needs "all series of the measurement" (no tag filter, or a negative / empty-value filter) does
+// not subtract the deleted series.
+func (s *S) unreliable(r *ReadSpec) bool {
+	if s.noExcl || !s.tainted[r.NS+"|"+r.Mst] || (r.Kind != "rows" && r.Kind != "agg") {
+		return false
+	}
+	return r.Pred == nil || !positiveOnly(r.Pred)
+}
+
+// reachesDetached: the drop selects a series with rows in a shard group whose index the deleted-series set is
+// not attached to (known finding).
+func (s *S) reachesDetached(d *Drop) bool {
+	n := s.w.ns[d.NS]
+	for _, sd := range n.matching(d.Mst, d.Pred) {
+		for t := range sd.Rows {
+			if s.detached[fmt.Sprintf("%s|%d", d.NS, groupOf(t))] {
+				return true
+			}
+		}
+	}
+	return false
 }
 
 // recreate brings a dropped retention policy / database back under the same name (it must behave as a fresh
@@ -369,6 +449,10 @@ func (s *S) check(reads []ReadSpec, when string, strict bool) {
 		if n == nil {
 			continue
 		}
+		if s.unreliable(r) {
+			s.c.Excluded("all-series-read-after-drop-series-on-a-measurement-that-is-not-the-last-of-its-index")
+			continue
+		}
 		d := s.runRead(r)
 		if d == "" {
 			s.c.Class("shape:" + r.Shape())
@@ -384,9 +468,9 @@ func (s *S) check(reads []ReadSpec, when string, strict bool) {
 			s.fail("%s: read %q differs from the model with the drops applied: %s%s", when, r.SQL(n), first, s.agreement(reads, i))
 		}
 		for d != "" {
-			if time.Since(t0) > 30*time.Second {
+			if time.Since(t0) > s.grace {
 				o, u, lv := s.h.Layout()
-				s.fail("%s: read %q differs from the model with the drops applied (still after 30 s): %s [shape %s; files ordered=%d unordered=%d maxlevel=%d; restarts=%d kills=%d drops=%d]%s",
+				s.fail("%s: read %q differs from the model with the drops applied (still after "+s.grace.String()+"): %s [shape %s; files ordered=%d unordered=%d maxlevel=%d; restarts=%d kills=%d drops=%d]%s",
 					when, r.SQL(n), d, r.Shape(), o, u, lv, s.restarts, s.kills, s.drops, s.agreement(reads, i))
 			}
 			time.Sleep(250 * time.Millisecond)
@@ -512,6 +596,8 @@ func (s *S) exec(op Op) {
 		s.check(op.Reads, "check", op.Strict)
 	case "fullcheck":
 		s.fullCheck("full check", op.Strict)
+	case "sleep": // replays only
+		time.Sleep(time.Duration(op.SettleMs) * time.Millisecond)
 	default:
 		bb.Fatal("unknown op %q", op.Kind)
 	}
@@ -705,10 +791,14 @@ func (s *S) genFC(t *rapid.T) *FieldCond {
 	return fc
 }
 
-func knobsFor(seg string) map[string]string {
+func knobsFor(seg, cold string) map[string]string {
 	k := map[string]string{}
 	if seg != "" {
 		k["max-rows-per-segment"] = seg
+	}
+	if cold != "" {
+		// default 5s: an idle memtable is flushed by the server itself (the key lives in [data.memtable])
+		k["raw:data.memtable"] = `write-cold-duration = "` + cold + `"`
 	}
 	return k
 }
@@ -717,8 +807,10 @@ func runHistory(t *rapid.T, c *ev.Case) {
 	seg := rapid.SampledFrom([]string{"8", "8", ""}).Draw(t, "maxRowsPerSegment")
 	mode := rapid.SampledFrom([]string{"single", "single", "single", "rp", "db"}).Draw(t, "namespaces")
 	c.Class("namespaces=" + mode)
-	caseDesc := map[string]any{"kind": "history", "segrows": seg}
-	h := hist.New(c, 13, knobsFor(seg), func(format string, a ...any) { c.Failf(t, prop, caseDesc, format, a...) })
+	cold := rapid.SampledFrom([]string{"", "1h"}).Draw(t, "writeColdDuration")
+	c.Class("write-cold-duration=" + cold)
+	caseDesc := map[string]any{"kind": "history", "segrows": seg, "cold": cold}
+	h := hist.New(c, 13, knobsFor(seg, cold), func(format string, a ...any) { c.Failf(t, prop, caseDesc, format, a...) })
 	defer h.Close()
 	s := newS(h, c, h.Fail)
 	g := &gen{}
@@ -794,6 +886,25 @@ func runHistory(t *rapid.T, c *ev.Case) {
 			if rapid.IntRange(0, 7).Draw(t, "noWhere") > 0 {
 				if len(preds) > 0 && rapid.IntRange(0, 2).Draw(t, "reusePred") == 0 {
 					d.Pred = rapid.SampledFrom(preds).Draw(t, "oldpred")
+				} else if all := n.matching(d.Mst, nil); len(all) > 0 && rapid.IntRange(0, 3).Draw(t, "fromSeries") > 0 {
+					// a predicate built from the tags of an existing series (selects at least that one)
+					sd := rapid.SampledFrom(all).Draw(t, "victim")
+					leaf := func(k string) *Pred {
+						if sd.Tags[k] == "" && rapid.Bool().Draw(t, "viaNe") {
+							return &Pred{Op: "ne", Key: k, Val: rapid.SampledFrom([]string{"x", "y"}).Draw(t, "neval")}
+						}
+						return &Pred{Op: "eq", Key: k, Val: sd.Tags[k]}
+					}
+					switch rapid.IntRange(0, 4).Draw(t, "victimShape") {
+					case 0:
+						d.Pred = leaf("dc")
+					case 1:
+						d.Pred = &Pred{Op: "and", L: leaf("host"), R: leaf("dc")}
+					case 2:
+						d.Pred = &Pred{Op: "or", L: leaf("host"), R: genLeaf(t, false)}
+					default:
+						d.Pred = leaf("host")
+					}
 				} else {
 					d.Pred = genPred(t, rapid.IntRange(0, 3).Draw(t, "regex") == 0)
 				}
@@ -802,6 +913,16 @@ func runHistory(t *rapid.T, c *ev.Case) {
 				}
 			}
 			s.awaitVisible()
+			if s.reachesDetached(d) {
+				// known finding: DROP SERIES does not reach shard groups created after the deleted-series index
+				c.Excluded("drop-series-reaching-a-shard-group-created-after-the-first-drop-or-start")
+				if s.walHoldsDropped {
+					c.Excluded("restart-while-rows-of-a-dropped-series-are-only-in-the-log")
+					s.exec(Op{Kind: "flush"})
+				}
+				c.Class("clean-restart")
+				s.exec(Op{Kind: "restart", Note: "attach the deleted-series set to every index"})
+			}
 			sel := n.matching(d.Mst, d.Pred)
 			all := n.matching(d.Mst, nil)
 			switch {
@@ -890,7 +1011,7 @@ func runHistory(t *rapid.T, c *ev.Case) {
 		op := Op{Kind: "kill", SettleMs: 6000}
 		if s.walHoldsDropped {
 			// known finding: the log replay re-creates dropped series from their unflushed rows
-			c.Excluded("kill-9-while-rows-of-a-dropped-series-are-only-in-the-log")
+			c.Excluded("restart-while-rows-of-a-dropped-series-are-only-in-the-log")
 			s.exec(Op{Kind: "flush"})
 		}
 		if s.dropUnsettled {
@@ -933,7 +1054,15 @@ func runHistory(t *rapid.T, c *ev.Case) {
 			s.exec(Op{Kind: "reorg", Cmd: "all"})
 			reads(t, 3)
 		},
-		"restart": func(t *rapid.T) { c.Class("clean-restart"); s.exec(Op{Kind: "restart"}); reads(t, 2) },
+		"restart": func(t *rapid.T) {
+			if s.walHoldsDropped {
+				c.Excluded("restart-while-rows-of-a-dropped-series-are-only-in-the-log")
+				s.exec(Op{Kind: "flush"})
+			}
+			c.Class("clean-restart")
+			s.exec(Op{Kind: "restart"})
+			reads(t, 2)
+		},
 		"kill":    func(t *rapid.T) { kill(t); reads(t, 2) },
 		"drop":    doDrop,
 		"drop2":   doDrop,
@@ -1007,7 +1136,7 @@ func TestDropHistories(t *testing.T) {
 
 type violation struct{ msg string }
 
-func replayHistory(seg string, ops []Op) (err error) {
+func replayHistory(seg, cold string, noExcl bool, graceS int, ops []Op) (err error) {
 	c := ev.Begin("replay")
 	var h *hist.H
 	defer func() {
@@ -1023,8 +1152,12 @@ func replayHistory(seg string, ops []Op) (err error) {
 		}
 	}()
 	fail := func(format string, a ...any) { panic(violation{fmt.Sprintf(format, a...)}) }
-	h = hist.New(c, 13, knobsFor(seg), fail)
+	h = hist.New(c, 13, knobsFor(seg, cold), fail)
 	s := newS(h, c, fail)
+	s.noExcl = noExcl
+	if graceS > 0 {
+		s.grace = time.Duration(graceS) * time.Second
+	}
 	for _, op := range ops {
 		s.exec(op)
 	}
@@ -1035,7 +1168,10 @@ func replayHistory(seg string, ops []Op) (err error) {
 func TestReplay(t *testing.T) {
 	ev.RunReplays(func(raw json.RawMessage, f ev.Failure) error {
 		var hc struct {
-			Seg string `json:"segrows"`
+			Seg    string `json:"segrows"`
+			Cold   string `json:"cold"`
+			NoExcl bool   `json:"no_exclusions"` // replays of known findings evaluate every read
+			GraceS int    `json:"grace_s"`       // replays of known findings: shorter grace period than 30 s
 		}
 		_ = json.Unmarshal(raw, &hc)
 		b, _ := json.Marshal(f.Ops)
@@ -1046,6 +1182,6 @@ func TestReplay(t *testing.T) {
 		if len(ops) == 0 {
 			return ev.InconclusiveError("no ops in the replay file")
 		}
-		return replayHistory(hc.Seg, ops)
+		return replayHistory(hc.Seg, hc.Cold, hc.NoExcl, hc.GraceS, ops)
 	})
 }
